@@ -235,6 +235,10 @@ func Field(x interface{}, name string) interface{} {
 // FocusOn restricts lazy AST node kinds to those the code behind v distinguishes (executor only).
 func FocusOn(v interface{}) {}
 
+// IsInputPos reports whether p is (syntactically) the position field of a
+// node, token or comment of the lazily created input (executor only).
+func IsInputPos(p interface{}) bool { return true }
+
 // TypeName returns the dynamic type of x as printed by go/types.
 func TypeName(x interface{}) string { return fmt.Sprintf("%T", x) }
 
